@@ -24,6 +24,7 @@ def main():
     ap.add_argument("--diff")
     ap.add_argument("--reverse", action="store_true")
     ap.add_argument("--sub", nargs=3, action="append", metavar=("FILE", "OLD", "NEW"))
+    ap.add_argument("--sub-all", nargs=3, action="append", metavar=("FILE", "OLD", "NEW"))
     ap.add_argument("--tier", default="quick")
     ap.add_argument("--seed", default="0")
     ap.add_argument("--keep-replays", action="store_true")
@@ -54,6 +55,13 @@ def main():
             s = open(p).read()
             if s.count(old) != 1:
                 print(f"--sub: {old!r} occurs {s.count(old)} times in {f}")
+                return 2
+            open(p, "w").write(s.replace(old, new))
+        for f, old, new in a.sub_all or []:
+            p = os.path.join(scratch, f)
+            s = open(p).read()
+            if s.count(old) < 1:
+                print(f"--sub-all: {old!r} not found in {f}")
                 return 2
             open(p, "w").write(s.replace(old, new))
         caught = 0
